@@ -144,7 +144,7 @@ theorem inflate_adds_unit_dimension (loads : String → R J) (ord : List String)
     (hwf : wfDesignB (unitRVar a n :: vars) = true) (hte : te.lookup "value" = none) :
     inflateDict ord (renderResponse vars re te) = .ok (renderResponse (unitRVar a n :: vars) re te) ∧
     decode loads ord (renderResponse (unitRVar a n :: vars) re te)
-      = .ok (⟨unitVar, false, []⟩ :: designOf vars) := by
+      = .ok (⟨unitVar, false, [], 0⟩ :: designOf vars) := by
   have h1 : inflateDict ord (renderResponse vars re te)
       = .ok (renderResponse (unitRVar a n :: vars) re te) := by
     unfold renderResponse at hna hnm ⊢
@@ -230,9 +230,21 @@ theorem reuse_numeric_set_idempotent (loads : String → R J) (ord : List String
 
 /-- **`augment_response` twice = once**: after the first call the two count vectors have the same
     length, so the second call returns `self` (what makes re-use of an augmented response safe) -/
-theorem augment_idempotent (summary resp r' : J) (h : augmentDict summary resp = .ok (some r')) :
-    augmentDict summary r' = .ok none :=
+theorem augment_idempotent (loads : String → R J) (summary resp r' : J)
+    (h : augmentDict loads summary resp = .ok (some r')) : augmentDict loads summary r' = .ok none :=
   augmentDict_idem h
+
+/-- **fix F41: the summary response may be JSON text or enveloped** — `augment_response` sees the
+    same summary in all three forms (before the fix it indexed the raw argument: KeyError / TypeError) -/
+theorem augment_summary_forms_agree (loads : String → R J) (kvs extra : List (String × J)) (resp : J)
+    (s : String) (hv : kvs.lookup "value" = none) (hs : loads s = .ok (.obj kvs)) :
+    augmentDict loads (.obj (("value", .obj kvs) :: extra)) resp = augmentDict loads (.obj kvs) resp ∧
+    augmentDict loads (.str s) resp = augmentDict loads (.obj kvs) resp := by
+  have h0 : cubeResponse loads (.obj kvs) = .ok (.obj kvs) := by simp [cubeResponse, Glue.get, hv]
+  have h1 : cubeResponse loads (.obj (("value", .obj kvs) :: extra)) = .ok (.obj kvs) :=
+    cubeResponse_envelope loads _ _
+  have h2 : cubeResponse loads (.str s) = .ok (.obj kvs) := by simp [cubeResponse, hs, Glue.get, hv]
+  simp only [augmentDict, augmentPlan, h0, h1, h2, and_self]
 
 /-- **zero padding, positions by element ID.**  Summary elements `S` (id, string value) followed by
     dict-valued (missing) ones, own elements `O` likewise, summary ids pairwise distinct and below the
@@ -303,7 +315,7 @@ theorem ca_as_0th_partitions (ca : Var) (hca : ca.kind = .arr) (hnm : ca.isMR = 
 theorem ca_as_0th_strands (ord : List String) (resp : J) (dims : List Dim) (d0 : Dim)
     (hd : cubeDimensions ord resp = .ok (d0 :: dims))
     (hc : caAs0th ord (some 0) resp = .ok true) :
-    nSlices ord (some 0) resp = d0.validIdxs.map List.length ∧
+    nSlices ord (some 0) resp = headValidCount (d0 :: dims) ∧
     factory (d0 :: dims).length true = .strand := by
   refine ⟨?_, by simp [factory]⟩
   rw [C01.nslices_cases ord (some 0) resp (d0 :: dims) true hd hc]
@@ -363,5 +375,27 @@ example :
 example : DictValued (.obj [("id", .num (-1)), ("missing", .bool true), ("value", .obj [("?", .num (-1))])]) :=
   ⟨_, rfl, rfl⟩
 example : (⟨.arr, 2, [false, true, false], false⟩ : Var).kind = .arr ∧ (1 : Nat) < 2 := ⟨rfl, by decide⟩
+
+
+-- non-vacuity of the inflation theorems: a 1-D response with a `mean` measure named by its references
+def exCol : RVar :=
+  { kind := .cat, «alias» := "col", cats := [{ id := 3 }, { id := 0, missing := some (some true) }, { id := 7 }] }
+def exMeasures : List (String × J) :=
+  [("measures", .obj [("count", .obj []),
+      ("mean", .obj [("metadata", .obj [("references", .obj [("alias", .str "num"), ("name", .str "num var")])])])])]
+
+example : numericArrayDimension numericMeasures (renderResponse [exCol] exMeasures []) = .ok none := rfl
+example : inflateNames numericMeasures (renderResponse [exCol] exMeasures []) = .ok (.str "num", .str "Num Var") := by
+  rfl
+example : wfDesignB (unitRVar "num" "Num Var" :: [exCol]) = true := by decide
+-- a 0-D first response (numeric-measure set): hypotheses of `reuse_numeric_set_idempotent`
+example :
+    let rkvs : List (String × J) := [("dimensions", .arr []), ("counts", .arr [.num 4]),
+      ("measures", .obj [("mean", .obj [("data", .arr [.num 2])])])]
+    let kvs : List (String × J) := [("result", .obj rkvs)]
+    kvs.lookup "result" = some (.obj rkvs) ∧ rkvs.lookup "dimensions" = some (.arr []) ∧
+    kvs.lookup "value" = none ∧ numericArrayDimension numericMeasures (.obj kvs) = .ok none ∧
+    inflateNames numericMeasures (.obj kvs) = .ok (.str "mean", .str "Mean") := by
+  exact ⟨rfl, rfl, rfl, rfl, rfl⟩
 
 end CrCube.C06
